@@ -175,6 +175,23 @@ def _special(_):
         other[k] = {"store_depth": 4, "store_width": 3, "store_algorithm": "MD5", "store_metadata_namespace": "ns://z"}[k]
         expect_refused("hashstore.yaml lacks %s, reopened with another value for it" % k, other, True, prep)
         expect_refused("hashstore.yaml lacks %s, reopened with the creation values" % k, good, True, prep)
+    # a configuration file that lost its BODY (interrupted write, editor accident) pins nothing any more: opening the
+    # populated store with values other than the creation values must be refused and must not touch anything
+    def body(kind):
+        def prep(path):
+            y = os.path.join(path, "hashstore.yaml")
+            with open(y) as f:
+                txt = f.read()
+            keep = {"empty": "", "comments only": "".join(l for l in txt.splitlines(True) if l.lstrip().startswith("#")) or "# hashstore\n",
+                    "first half": txt[:len(txt) // 2], "first line only": txt.splitlines(True)[0],
+                    "not a mapping": "- 3\n- 2\n", "null document": "null\n", "whitespace": "\n\n   \n"}[kind]
+            with open(y, "w") as f:
+                f.write(keep)
+        return prep
+    for kind in ("empty", "comments only", "first half", "first line only", "not a mapping", "null document", "whitespace"):
+        for k, v in (("store_depth", 2), ("store_width", 4), ("store_algorithm", "SHA-512"), ("store_metadata_namespace", "ns://z")):
+            expect_refused("hashstore.yaml damaged (%s), populated store reopened with another %s" % (kind, k),
+                           dict(good, **{k: v}), True, body(kind))
     # extra keys are harmless: accepted with equal values, and nothing changes
     path = fresh()
     before = snap_parent(parent)
